@@ -224,7 +224,7 @@ pub fn alphabet(full: bool) -> &'static Vec<Rec> {
 
 const RTYPE_SAMPLE: [u8; 7] = [0x3c, 0x3d, 0x40, 0x7f, 0x80, 0xfe, 0xff];
 const DTYPES: [u8; 9] = [0, 1, 2, 3, 4, 5, 6, 7, 255];
-pub const F64_VALUES: [u64; 8] = [
+pub const F64_VALUES: [u64; 16] = [
     0,
     0x0000_0000_0000_0001,
     0x8000_0000_0000_0000,
@@ -233,6 +233,16 @@ pub const F64_VALUES: [u64; 8] = [
     0x0010_0000_0000_0000,
     0x000f_ffff_ffff_ffff,
     0x8000_0000_0000_1000,
+    // the top exponent band (16^62 .. 16^63): smallest, middle, negative
+    0x7f10_0000_0000_0000,
+    0x7f80_0000_0000_0001,
+    0xff10_0000_0000_0000,
+    // the second-lowest hexade, un-normalised mantissas at a middle exponent, 56 significant bits (rounds up), 1 + 2^-52
+    0x0110_0000_0000_0000,
+    0x4100_0000_0000_0001,
+    0x4101_0000_0000_0000,
+    0x40ff_ffff_ffff_ffff,
+    0x4110_0000_0000_0001,
 ];
 
 #[derive(Clone, Debug, PartialEq)]
@@ -1186,7 +1196,7 @@ impl Driver for C10 {
         let nb = generated_bases().len();
         Describe {
             rule: format!(
-                "base streams: {nb} reference-encoder streams (empty library, empty structure, each element kind minimal and with all optional records, strans variants, property list, mixed strings, two multi-element structures, long coordinate lists, a 24-structure library) + the {} tracked repository .gds files. [T] every byte prefix of bases with <= 64 records (incl. length 0 and the full stream), record boundary +-0..3 bytes of the larger ones. [F] at {} record position(s) each of {} single-record faults: length field := 0,1,2,3,odd,len-2,len+2,0xFFFE,0xFFFF; payload emptied; record type := each of 0x00..0x3b and 0x3c,0x3d,0x40,0x7f,0x80,0xfe,0xff; data type := 0..7,255; record deleted / duplicated / swapped with successor; a whole element of each of the 7 kinds spliced in; record replaced by / preceded by each record of the minimal typed alphabet; the payload of each string record := each of 12 byte strings that are mostly not valid UTF-8 (cut-short sequences with / without NUL padding, stray continuation bytes, overlong and surrogate encodings, Latin-1, 30 000 x 0xFF); each 8-byte real := {{0, 1 (smallest unnormalised), 0x80..0, 0x7f..f, 0xff..f, smallest normalised, largest unnormalised at exponent 0, a negative unnormalised}}. {} [S] after each of {} parser contexts (library header x5, structure x4, each element kind after its start record and after XY, after STRANS/MAG, after PROPATTR/PROPVALUE/ENDEL, after ENDLIB) every sequence of 1..2 records over the full typed alphabet ({} records: each defined record type with minimal valid payload, zero-length variant, wrong-size variant, the ten unreleased types, XY with 3/5 points){}, each once followed by end-of-input and once by the context's natural completion. [L] linear-time evidence: for the families many-tiny-structs, many-elements, maximal-xy-records (32 KiB each), many-properties, maximal-strings (32 KiB each), error-at-the-very-end at {} KiB the stand-alone reader (`l21mc gdsread`) runs under `valgrind --tool=cachegrind --cache-sim=no`; the deterministic instruction counts must satisfy I(4N)-I(2N) <= 3 x (I(2N)-I(N)) (linear => 2, quadratic => 4; differences below 10 % of I(N) count as noise); the counts are echoed under alphabet_use as instructions:<family>:<size>. [HL] all 65 536 values of the length field at 3 record positions; [HT] all 256 x 256 (record type, data type) pairs at 2 record positions. A state is one byte stream (hashed); non-trivial = differs from its unfaulted base.",
+                "base streams: {nb} reference-encoder streams (empty library, empty structure, each element kind minimal and with all optional records, strans variants, property list, mixed strings, two multi-element structures, long coordinate lists, a 24-structure library) + the {} tracked repository .gds files. [T] every byte prefix of bases with <= 64 records (incl. length 0 and the full stream), record boundary +-0..3 bytes of the larger ones. [F] at {} record position(s) each of {} single-record faults: length field := 0,1,2,3,odd,len-2,len+2,0xFFFE,0xFFFF; payload emptied; record type := each of 0x00..0x3b and 0x3c,0x3d,0x40,0x7f,0x80,0xfe,0xff; data type := 0..7,255; record deleted / duplicated / swapped with successor; a whole element of each of the 7 kinds spliced in; record replaced by / preceded by each record of the minimal typed alphabet; the payload of each string record := each of 12 byte strings that are mostly not valid UTF-8 (cut-short sequences with / without NUL padding, stray continuation bytes, overlong and surrogate encodings, Latin-1, 30 000 x 0xFF); each 8-byte real := {{0, 1 (smallest unnormalised), 0x80..0, 0x7f..f, 0xff..f, smallest normalised, largest unnormalised at exponent 0, a negative unnormalised, three values of the top exponent band, the second-lowest hexade, two unnormalised values at a middle exponent, a 56-bit mantissa, 1 + 2^-52}}. {} [S] after each of {} parser contexts (library header x5, structure x4, each element kind after its start record and after XY, after STRANS/MAG, after PROPATTR/PROPVALUE/ENDEL, after ENDLIB) every sequence of 1..2 records over the full typed alphabet ({} records: each defined record type with minimal valid payload, zero-length variant, wrong-size variant, the ten unreleased types, XY with 3/5 points){}, each once followed by end-of-input and once by the context's natural completion. [L] linear-time evidence: for the families many-tiny-structs, many-elements, maximal-xy-records (32 KiB each), many-properties, maximal-strings (32 KiB each), error-at-the-very-end at {} KiB the stand-alone reader (`l21mc gdsread`) runs under `valgrind --tool=cachegrind --cache-sim=no`; the deterministic instruction counts must satisfy I(4N)-I(2N) <= 3 x (I(2N)-I(N)) (linear => 2, quadratic => 4; differences below 10 % of I(N) count as noise); the counts are echoed under alphabet_use as instructions:<family>:<size>. [HL] all 65 536 values of the length field at 3 record positions; [HT] all 256 x 256 (record type, data type) pairs at 2 record positions. A state is one byte stream (hashed); non-trivial = differs from its unfaulted base.",
                 REPO_FILES.len(),
                 t.pick("every (bases <= 64 records) / first 24, last 12 and every 37th (larger bases)", "every"),
                 fault_table().len(),
